@@ -91,7 +91,12 @@ def has_ml_scores(mm):
         # this ML score. But this use case is basically non-existent and
         # the performance impact is probably negligible.
         candidates = AncillaryFeature.get_instances(feat)
-        idlist.append((feat, [c.hash(mm) for c in candidates]))
+        if candidates:
+            idlist.append((feat, [c.hash(mm) for c in candidates]))
+        else:
+            # The scores are regular (e.g. temporary) feature data which
+            # may be replaced by the user; hash the data themselves.
+            idlist.append((feat, mm[feat]))
     return idlist
 
 
